@@ -209,6 +209,10 @@ func genC14(seed uint64) *Scenario {
 						d = []int64{int64(time.Hour), 24 * int64(time.Hour), 100 * 365 * 24 * int64(time.Hour), math.MaxInt64 - int64(time.Second), math.MaxInt64 - p/2, math.MaxInt64 - 1}[r.n(6)]
 					}
 					op.TimeoutNs = d
+					if (op.Kind == OpFindString || op.Kind == OpFindRunes) && !hugeTimeouts && d < 500*p && r.chance(1, 3) {
+						// the caller takes its time between two FindNextMatch calls: every call has its own deadline
+						op.IdleNs = []int64{d / 2, d + 2*p, 2 * d}[r.n(3)]
+					}
 					cl.Ops = append(cl.Ops, op)
 					lastD, lastHeavy = d, false
 				case x < 7: // untimed call
